@@ -1028,8 +1028,11 @@ class RpcServer:
         """
         if info.method_type != MethodType.STREAM or info.header_type is not None:
             return
+        # An input the client routed through the transport's SHM segment is
+        # skipped here unresolved: free its region, nobody else will.
+        shm = transport.shm if isinstance(transport, ShmPipeTransport) else None
         with contextlib.suppress(pa.ArrowInvalid, OSError):
-            _drain_stream(ValidatedReader(ipc.open_stream(transport.reader), self._ipc_validation))
+            _drain_stream(ValidatedReader(ipc.open_stream(transport.reader), self._ipc_validation), shm=shm)
 
     def _prepare_method_call(
         self, info: RpcMethodInfo, kwargs: dict[str, object]
@@ -1354,4 +1357,4 @@ class RpcServer:
 
         # Drain remaining input so transport is clean for next request
         with contextlib.suppress(pa.ArrowInvalid, OSError):
-            _drain_stream(input_reader)
+            _drain_stream(input_reader, shm=shm)
